@@ -14,7 +14,8 @@ RULE = ('Invalid requests of every documented kind (negative amount, over-withdr
         'fields, pending order ids per queue, history tuples, portfolio ids) is taken before and after EVERY request; '
         'a refused request must leave it bit-identical and raise the documented type; a request the harness '
         'classifies as invalid must not be accepted. Non-trivial: a case with a refusal while positions or pending '
-        'orders exist; distinct = distinct (request kind, side) sequence. Cells (fault kind x state class) are listed.')
+        'orders exist; distinct = distinct (request kind, side) sequence. Cells (fault kind x state class) are listed.'
+        ' Also requests timed between a portfolio clock and the later clock of one of its positions (direct Portfolio transactions / marks, broker updates), and transfers/orders while the broker clock is behind a portfolio clock.')
 ASSUMPTIONS = [
     'portfolio/broker clocks are not listed observables: a refused request may advance them',
     'an ExecutionHandler call is a composite (submit accepted, update refused) and is not judged as one request',
